@@ -178,6 +178,31 @@ fn main() {
         finish(&cli, rep, t0);
     }
 
+    if cli.stage == "miri32" {
+        // A 32-BIT build of dasp, executed by the interpreter (usize is 32 bits wide, code under
+        // cfg(target_pointer_width = "32") exists). Interpreter-sized: per pair the structured
+        // boundary values thinned to ~60 plus 40 random ones, pairs dealt to the shards.
+        rep.note(format!("usize::BITS = {} in this stage", usize::BITS));
+        if usize::BITS == 32 {
+            rep.hit("ran_with_32_bit_usize");
+        }
+        rep.oblige("ran_with_32_bit_usize", 1);
+        for (pi, p) in pairs.iter().enumerate() {
+            if pi as u64 % cli.nshards != cli.shard {
+                continue;
+            }
+            let all = spec::structured_values(p.src(), 2, 1);
+            let step = (all.len() / cli.t(60usize, 400usize)).max(1);
+            let mut vals: Vec<i128> = all.into_iter().step_by(step).collect();
+            let mut rng = Rng::derive(cli.seed, &[32, pi as u64]);
+            for _ in 0..cli.t(40, 400) {
+                vals.push(rng.range_i128(p.src().min(), p.src().max()));
+            }
+            p.check_list(&vals, &mut rep);
+            rep.hit("pairs_exercised");
+        }
+        finish(&cli, rep, t0);
+    }
     let release_stage = cli.stage.starts_with("release");
     let exhaustive_bits: u32 = if release_stage { 16 } else { cli.t(24, 32) };
     let n_random: u64 = if release_stage { 200_000 } else { cli.t(1_000_000, 40_000_000) };
